@@ -242,7 +242,10 @@ def _find_files(env, filter, seen_dirs=None):
     paths = filter.bases()
 
     for p in paths:
-        yield p, filter.match(p)
+        # The base of a pattern is only a candidate if it really is a
+        # directory (not a regular file, and not missing altogether).
+        if _path.isdir(p, env.base_dirs):
+            yield p, filter.match(p)
     for p in paths:
         for base, dirs, files in _path.walk(p, env.base_dirs):
             if seen_dirs is not None:
